@@ -44,6 +44,9 @@ Fixpoint targets (auth : Z) (m : msg) (rows : list (string * discipline)) : list
     messages carry their addresses): they signed. *)
 Definition minus (xs : list Z) (l : list Z) : list Z := filter (fun y => negb (memz y xs)) l.
 
+(** id the harness gives to a field value that is not an address of any actor: nobody's state *)
+Definition nobody : Z := 99.
+
 Definition check (c : case) : bool :=
   match c with
   | CDeliver kind auth g signers creator fields ext biz o_ante o_ok o_touched =>
@@ -56,7 +59,7 @@ Definition check (c : case) : bool :=
       | RejectedGuard => o_ante && negb o_ok && same_set o_touched []
       | Done _ =>
         o_ante &&
-        (if biz then o_ok && same_set (minus (creator :: signers) o_touched) (minus (creator :: signers) (targets auth m (ms_rows spec)))
+        (if biz then o_ok && same_set (minus (creator :: signers) o_touched) (minus (nobody :: creator :: signers) (targets auth m (ms_rows spec)))
          else negb o_ok && same_set o_touched [])
       end
     end
